@@ -55,6 +55,11 @@ def ops_for(m, rng):
             ops.append(['rename', t, rng.choice(NEW_NAMES)])
         if string_settable(n):
             ops.append(['set_string', t, rng.choice(NEW_STRINGS)])
+            # the new string may coincide with text the node already holds
+            own = [c.text for c in (n.args[0].body if n.kind == 'cmd' else n.body)
+                   if c.kind == 'text' and re.fullmatch(r'[A-Za-z0-9 ,.;:!?+=-]*[A-Za-z0-9][A-Za-z0-9 ,.;:!?+=-]*', c.text)]
+            if own:
+                ops.append(['set_string', t, rng.choice(own)])
         if n.kind in ('cmd', 'env') and n.args and all(a.kind == 'arg' for a in n.args):
             k = len(n.args)
             ops.append(['args', t, 'slice', 0, rng.randint(0, k)])
@@ -67,6 +72,11 @@ def ops_for(m, rng):
             if k > 1:
                 ops.append(['args', t, 'reverse'])
             ops.append(['args', t, 'arg_string', rng.randrange(k), rng.choice(NEW_STRINGS)])
+            i = rng.randrange(k)
+            own = [c.text for c in n.args[i].body
+                   if c.kind == 'text' and re.fullmatch(r'[A-Za-z0-9 ,.;:!?+=-]*[A-Za-z0-9][A-Za-z0-9 ,.;:!?+=-]*', c.text)]
+            if own and len(n.args[i].body) > 1:
+                ops.append(['args', t, 'arg_string', i, rng.choice(own)])
     return ops
 
 
